@@ -414,13 +414,13 @@ Proof.
 Qed.
 
 Lemma expect_some https dh limit g rest e : expect https dh limit g rest = Some e ->
-  exists host auth path query,
-    g_host dh g = Some host /\ parse_uri https host (g_target g) = Some (auth, path, query) /\
+  exists auth path query,
+    request_uri https (g_host dh g) (g_target g) = Some (auth, path, query) /\
     e = mk_expected (g_method g) path query (if g_v11 g then 11%N else 10%N) (g_hmap g) auth
           (firstn (N.to_nat (N.min (body_length (g_method g) (g_hmap g)) limit)) rest).
 Proof.
-  unfold expect. destruct (g_host dh g) as [host|] eqn:Eh; [|discriminate].
-  destruct (parse_uri https host (g_target g)) as [[[auth path] query]|] eqn:Eu; [|discriminate].
-  intros H. inversion H. exists host, auth, path, query. split; [reflexivity|]. split; [exact Eu|reflexivity].
+  unfold expect.
+  destruct (request_uri https (g_host dh g) (g_target g)) as [[[auth path] query]|] eqn:Eu; [|discriminate].
+  intros H. inversion H. exists auth, path, query. split; reflexivity.
 Qed.
 
